@@ -27,6 +27,7 @@ type Config struct {
 	crossSolver    string
 	prefer         string
 	stubs          map[string]*ssa.Function
+	stubMissing    []string
 	tier           string
 }
 
